@@ -62,6 +62,10 @@ claimed = {
          "Decides that the L1 head record has a single writer chain ending in the L1 client, that the head is chosen only among buffered commits at or below the provider's finalised height keeping the highest, that finalised entries leave the buffer and removals drop every entry at or above the removed height, that the buffer is confined to the client's own loop (no goroutine or function value reaches it), that geth logs keep their Removed flag and reference height, and that resubscription reuses the channel being read. It does not decide monotonicity across restarts nor behaviour under subscription-failure orderings.",
          "trusted: go/types, go/ssa, VTA; go-ethereum's subscription semantics are outside the analysed code",
          "DESIGN.md §5 C17"),
+ "C18": ("must-hold DNF at the applied-bit write and at the runner's success exits; SSA value identity of the commit batch; term check of Migrate implementations' (nil, ctx-error) returns; dominance of the target-version write over the migration loop (range-over-func aware); constant evaluation (go/types) of persisted identifiers against a recorded history",
+         "Decides the runner's bookkeeping contract (applied bit only after Migrate returned a nil state and a nil-or-context error, in one batch with the resume-state deletion; resume state persisted when non-nil), each migration's side of it (no nil state with a context error), validation before a runner exists, the full target version persisted once before the first migration, that an already-migrated block is never rewritten by the block-transactions re-run, and that bucket byte values, CBOR registration order and migration indices extend the recorded history. It does not decide that converted data equals the original nor resumability of each pipeline at each interruption point.",
+         "trusted: go/types (constant evaluation), go/ssa; package node has no SSA in this sandbox (jemalloc) and is read from its syntax tree; the recorded history tables live in engine/c18hist.go and engine/c18.go",
+         "DESIGN.md §5 C18"),
 }
 pending = {}  # id -> reason (properties not claimed)
 props = [json.loads(l) for l in open(os.path.join(V, "properties.jsonl"))]
